@@ -4,15 +4,41 @@ use crossterm::event::{self, Event, KeyEvent};
 use std::time::Duration;
 
 /// An asynchronous event receiver.
+#[cfg(not(feature = "verif-hooks"))]
 pub struct Events;
+
+/// With the verification hooks the receiver carries a queue of injected key events,
+/// which are delivered before anything read from the terminal.
+#[cfg(feature = "verif-hooks")]
+pub struct Events {
+    pub verif_injected: std::collections::VecDeque<Event>,
+    pub verif_headless: bool,
+}
 
 impl Events {
     /// Create a new async Event reader.
+    #[cfg(not(feature = "verif-hooks"))]
     pub fn new() -> Events {
         Events
     }
+    #[cfg(feature = "verif-hooks")]
+    pub fn new() -> Events {
+        Events {
+            verif_injected: Default::default(),
+            verif_headless: false,
+        }
+    }
     /// Get the next [`Event`].
     pub fn next(&mut self) -> Option<Event> {
+        #[cfg(feature = "verif-hooks")]
+        {
+            if let Some(e) = self.verif_injected.pop_front() {
+                return Some(e);
+            }
+            if self.verif_headless {
+                return None;
+            }
+        }
         match event::poll(Duration::from_secs(0)) {
             Ok(true) => event::read().ok(),
             _ => None,
